@@ -89,6 +89,23 @@ func c17SawEOF(c net.Conn, d time.Duration) bool {
 	return true
 }
 
+// c17ClosedWithin is c17SawEOF for a connection that may still deliver a reply before the close: data is
+// drained, only "still open when the deadline passes" counts as open.
+func c17ClosedWithin(c net.Conn, d time.Duration) bool {
+	c.SetReadDeadline(time.Now().Add(d))
+	var b [4096]byte
+	for {
+		_, err := c.Read(b[:])
+		if err == nil {
+			continue
+		}
+		if ne, ok := err.(net.Error); ok && ne.Timeout() {
+			return false
+		}
+		return true
+	}
+}
+
 func serverGoroutines() []string {
 	buf := make([]byte, 1<<20)
 	n := runtime.Stack(buf, true)
@@ -471,7 +488,7 @@ func runC17(tb stat.TB, c c17Case) {
 			stopped = true
 			if inflight != nil {
 				openGate(inflight)
-				if !c17SawEOF(inflight.conn, 2*time.Second) {
+				if !c17ClosedWithin(inflight.conn, 2*time.Second) {
 					viol("connection-open-after-stop", "step#%d: the connection of a request that was in flight is still open 2 s after Stop returned", si)
 				}
 				inflight.conn.Close()
